@@ -215,6 +215,14 @@ def monitors(sm: dict) -> list:
             still_owned = owned in owned_now
             if not s['closed'] and not still_owned:
                 viols.append((f'not-closed-on-leave:{a}', f'left {a} for IDLE at t={t} but connection {owned} was never closed'))
+    # (4b) "whenever it leaves a connected state the transport is closed": the connection the session owned at the
+    # instant of the transition is closed at that very instant of virtual time (not some timer periods later, during
+    # which a session that calls itself IDLE could still write on it)
+    for t, owned, a, b in sm['fsm_log']:
+        if b == 'IDLE' and a in ('OPENSENT', 'OPENCONFIRM', 'ESTABLISHED') and owned is not None:
+            s = socks[owned]
+            if not s['closed'] or (s['closed_at'] is not None and s['closed_at'] > t + 1e-6):
+                viols.append((f'transport-open-after-leave:{a}', f'left {a} for IDLE at t={t} while connection {owned} stayed open (closed at {s["closed_at"]})'))
     # (6) RFC 4271 event 18 (TcpConnectionFails): a session cannot stay in a connected state once its transport is
     # gone - at the end of the execution a peer in OPENSENT/OPENCONFIRM/ESTABLISHED owns an open connection
     for p in sm['peers']:
